@@ -70,6 +70,7 @@ func main() {
 	}
 	if *outLean != "" {
 		must(os.WriteFile(filepath.Join(*outLean, "Facts.lean"), []byte(emitFacts(pkgs)), 0o644))
+		must(os.WriteFile(filepath.Join(*outLean, "AccessTable.lean"), []byte(emitAccessTable(pkgs)), 0o644))
 	}
 	if *outInv != "" {
 		must(os.MkdirAll(filepath.Dir(*outInv), 0o755))
